@@ -269,6 +269,7 @@ package tbtc
 //@   assert call:walletTransactionExecutor.broadcastTransaction : [broadcast-bounded-by-margin] arg2 > 0 && arg2 <= depositSweepSigningTimeoutSafetyMarginBlocks * 12 * time.Second
 //@ func node.handleDepositSweepProposal
 //@   property C46
+//@   opt noframe 1
 //@   requires [expiry-is-start-plus-validity] expiryBlock == startBlock + depositSweepProposalValidityBlocks && startBlock <= 4611686018427387904
 //@   modifies alloc
 
@@ -292,6 +293,7 @@ package tbtc
 //@   assert call:walletTransactionExecutor.broadcastTransaction : [broadcast-bounded-by-margin] arg2 > 0 && arg2 <= redemptionSigningTimeoutSafetyMarginBlocks * 12 * time.Second
 //@ func node.handleRedemptionProposal
 //@   property C46
+//@   opt noframe 1
 //@   requires [expiry-is-start-plus-validity] expiryBlock == startBlock + redemptionProposalValidityBlocks && startBlock <= 4611686018427387904
 //@   modifies alloc
 
@@ -315,6 +317,7 @@ package tbtc
 //@   assert call:walletTransactionExecutor.broadcastTransaction : [broadcast-bounded-by-margin] arg2 > 0 && arg2 <= movingFundsSigningTimeoutSafetyMarginBlocks * 12 * time.Second
 //@ func node.handleMovingFundsProposal
 //@   property C46
+//@   opt noframe 1
 //@   requires [expiry-is-start-plus-validity] expiryBlock == startBlock + movingFundsProposalValidityBlocks && startBlock <= 4611686018427387904
 //@   modifies alloc
 
@@ -338,6 +341,7 @@ package tbtc
 //@   assert call:walletTransactionExecutor.broadcastTransaction : [broadcast-bounded-by-margin] arg2 > 0 && arg2 <= movedFundsSweepSigningTimeoutSafetyMarginBlocks * 12 * time.Second
 //@ func node.handleMovedFundsSweepProposal
 //@   property C46
+//@   opt noframe 1
 //@   requires [expiry-is-start-plus-validity] expiryBlock == startBlock + movedFundsSweepProposalValidityBlocks && startBlock <= 4611686018427387904
 //@   modifies alloc
 
@@ -355,6 +359,7 @@ package tbtc
 //@   ensures result != nil && !old(allocated(result))
 //@ func node.handleHeartbeatProposal
 //@   property C46
+//@   opt noframe 1
 //@   requires [expiry-is-start-plus-validity] expiryBlock == startBlock + heartbeatTotalProposalValidityBlocks && startBlock <= 4611686018427387904
 //@   modifies alloc
 
